@@ -65,7 +65,7 @@ def plan_for(tier: str, seed: int, i: int) -> dict:
     disco_fault = rng.choice(DISCO_FAULTS) if rng.random() < 0.12 else None
     return {"prop": ID, "proto": proto, "steps": steps, "disco_fault": disco_fault,
             "boots": rng.choice([0, 1, 7, 2**20]), "time0": rng.choice([0, 100, 149, 10**6, 2**31 - 10**8]),
-            "engine_cfg": gen.gen_bytes(rng, 12) if rng.random() < 0.2 else b""}
+            "engine_cfg": gen.gen_bytes(rng, 12) if rng.random() < 0.2 else b"", "ctx_echo": rng.random() < 0.3}
 
 
 def valid(plan: dict) -> bool:
@@ -95,6 +95,7 @@ def execute(plan: dict) -> dict:
     w = World()
     mib = {BASE + (1, 1, 1): ("str", b"value"), BASE + (1, 1, 2): ("int", 42), BASE + (1, 2, 1): ("c32", 7)}
     agent = w.add_agent(agent_for(proto, mib, boots=plan["boots"], time0=plan["time0"]))
+    agent.report_ctx_echo = bool(plan.get("ctx_echo"))   # Reports may echo the request's context engine id (RFC 3412 7.1)
     slow = {"s": 0}
     agent.delay_for = lambda req: 0 if req.get("discovery") else slow["s"] * 1024
     fault = plan.get("disco_fault")
